@@ -30,15 +30,37 @@ def _reader_key_roles(ctx):
     """{'rlen': 'LENGTH', ...} from read_index: key -> role of the column its value is parsed from."""
     f = ctx.index.func(IF, "read_index")
     comps = [n for n in body_walk(f.node) if isinstance(n, ast.DictComp)]
-    ctx.need(len(comps) == 1, "read_index: dict comprehension not found")
-    dc = comps[0]
-    gen = dc.generators[0]
-    ctx.need(isinstance(gen.target, ast.Tuple) and len(gen.target.elts) == 5, "read_index does not unpack five columns")
-    cols = [e.id for e in gen.target.elts]
+    loops = [n for n in body_walk(f.node) if isinstance(n, ast.For)]
     env = local_env(f.node)
-    src = sym.canon(gen.iter, env)
-    ok = src.replace('"', "'") == "(line.split('\\t') for line in open(%s))" % f.params[0]
-    ctx.ob(f.where, "index lines are split on tabs into the five .fai columns", ok, src)
+    if len(comps) == 1:
+        dc = comps[0]
+        gen = dc.generators[0]
+        ctx.need(isinstance(gen.target, ast.Tuple) and len(gen.target.elts) == 5, "read_index does not unpack five columns")
+        cols = [e.id for e in gen.target.elts]
+        src = sym.canon(gen.iter, env)
+        ok = src.replace('"', "'") == "(line.split('\\t') for line in open(%s))" % f.params[0]
+        ctx.ob(f.where, "index lines are split on tabs into the five .fai columns", ok, src)
+        key_expr, val_expr = dc.key, dc.value
+    elif len(loops) == 1:
+        # the same reader written as a loop: `for line in <file>: a, b, c, d, e = line...split('\t'); index[KEY] = {...}`
+        lp = loops[0]
+        unpack = [x for x in lp.body if isinstance(x, ast.Assign) and isinstance(x.targets[0], ast.Tuple) and len(x.targets[0].elts) == 5]
+        store = [x for x in lp.body if isinstance(x, ast.Assign) and isinstance(x.targets[0], ast.Subscript) and isinstance(x.value, ast.Dict)]
+        ctx.need(len(unpack) == 1 and len(store) == 1, "read_index (loop form): five-column unpack / dict store not found")
+        cols = [e.id for e in unpack[0].targets[0].elts]
+        src = u(unpack[0].value)
+        line_var = u(lp.target)
+        ok = any(isinstance(c, ast.Call) and isinstance(c.func, ast.Attribute) and c.func.attr == "split" and c.args and getattr(c.args[0], "value", None) == "\t"
+                 for c in ast.walk(unpack[0].value)) and line_var in {n.id for n in ast.walk(unpack[0].value) if isinstance(n, ast.Name)}
+        ctx.ob(f.where, "index lines are split on tabs into the five .fai columns", ok, src)
+        key_expr, val_expr = store[0].targets[0].slice, store[0].value
+    else:
+        raise Unrecognised("read_index: neither a dict comprehension nor a single loop over the lines")
+
+    class _DC:
+        pass
+    dc = _DC()
+    dc.key, dc.value = key_expr, val_expr
     ctx.need(isinstance(dc.value, ast.Dict), "read_index: value is not a dict literal")
     roles = {}
     for k, v in zip(dc.value.keys, dc.value.values):
